@@ -115,7 +115,8 @@ class NuWiki:
         else:
             self.imageinfo = DumbJsonDB(file_name, allow_pickle=allow_pickle)
 
-        self.redirects = self._loadjson("redirects.json", {})
+        # a table of titles: read as plain data (a redirect from the title "type" is not a metabook object)
+        self.redirects = self._loadjson("redirects.json", {}, plain=True)
         self.siteinfo = self._loadjson("siteinfo.json", {})
         self.nshandler = nshandling.NsHandler(self.siteinfo)
         self.en_nshandler = nshandling.get_nshandler_for_lang("en")
@@ -135,9 +136,13 @@ class NuWiki:
     def set_make_print_template(self):
         self.make_print_template = None
 
-    def _loadjson(self, path, default=None):
+    def _loadjson(self, path, default=None, plain=False):
         path = self._pathjoin(path)
         if self._exists(path):
+            if plain:
+                import json as plainjson
+
+                return plainjson.load(open(path, "rb"))
             return json.load(open(path, "rb"))
         return default
 
